@@ -144,8 +144,9 @@ func runInterleavedOne(p *Program, perOwner map[string][]Step, r *rand.Rand, tic
 			return nil, err
 		}
 	}
-	// quiescent: probe serially (no gate needed, but the gate is still installed: release as we go)
+	// quiescent: probe serially, hooks removed
 	s.srv.SetGate(nil)
+	s.srv.SetAfter(nil)
 	if p.Probe {
 		for _, o := range p.Owners {
 			for k := 1; k <= p.NKeys; k++ {
@@ -239,7 +240,7 @@ func runInterleaved(c RandCfg, out string) {
 //
 // The table accesses inside the in-memory cache cannot be observed or scheduled from outside, so only the
 // invocation (logged before the call starts) and the return (logged after it ended) are recorded, in the order
-// of a global sequencer; the trace spec takes the table accesses of pending calls silently.  Locks are long
+// of a global sequencer; the calls of a round are invoked together (all invocations logged, then all calls released); the trace spec takes the table accesses of pending calls silently.  Locks are long
 // (no expiry during a trace).
 
 func runStressOne(p *Program, per map[string][]Step) ([]Event, int, error) {
@@ -254,15 +255,25 @@ func runStressOne(p *Program, per map[string][]Step) ([]Event, int, error) {
 	var mu sync.Mutex
 	evs := []Event{{"ev": "TraceStart", "name": p.Name}, {"ev": "Setup", "variant": "mem", "cap": p.Cap, "silent": true}}
 	pending, overlaps := 0, 0
-	start := make(chan struct{})
-	var wg sync.WaitGroup
-	errs := make(chan error, len(p.Owners))
+	rounds := 0
 	for _, o := range p.Owners {
-		wg.Add(1)
-		go func(o string) {
-			defer wg.Done()
-			<-start
-			for _, st := range per[o] {
+		if len(per[o]) > rounds {
+			rounds = len(per[o])
+		}
+	}
+	var firstErr error
+	// round j: every owner that has a j-th call starts it at the same moment (a barrier), so that calls overlap
+	for j := 0; j < rounds; j++ {
+		start := make(chan struct{})
+		var wg, logged sync.WaitGroup
+		for _, o := range p.Owners {
+			if j >= len(per[o]) {
+				continue
+			}
+			wg.Add(1)
+			logged.Add(1)
+			go func(o string, st Step) {
+				defer wg.Done()
 				mu.Lock()
 				if pending > 0 {
 					overlaps++
@@ -270,24 +281,24 @@ func runStressOne(p *Program, per map[string][]Step) ([]Event, int, error) {
 				pending++
 				evs = append(evs, Event{"ev": "Begin", "o": o, "op": st.Op, "ks": st.Ks, "ttl": st.TTL})
 				mu.Unlock()
+				logged.Done()
+				<-start // every invocation of the round is logged before any call of the round starts
 				ok, oth, err := s.doCall(st)
 				mu.Lock()
 				pending--
 				evs = append(evs, Event{"ev": "Return", "o": o, "ok": ok, "other": oth})
-				mu.Unlock()
-				if err != nil {
-					errs <- err
-					return
+				if err != nil && firstErr == nil {
+					firstErr = err
 				}
-			}
-		}(o)
-	}
-	close(start)
-	wg.Wait()
-	select {
-	case err := <-errs:
-		return nil, 0, err
-	default:
+				mu.Unlock()
+			}(o, per[o][j])
+		}
+		logged.Wait()
+		close(start)
+		wg.Wait()
+		if firstErr != nil {
+			return nil, 0, firstErr
+		}
 	}
 	if p.Probe {
 		for _, o := range p.Owners {
